@@ -1,2 +1,560 @@
+(* C19 proofs: every question of Spec.v, asked of the handler model, is answered by the spec's
+   own replay.  One "step" lemma per question (case analysis over the 26 notifications), lifted to
+   all notification lists by [fold_replay]. *)
 From Slsk Require Import Base.Tac.
 From Slsk Require Import C19.Spec C19.Model.
+
+(* ---------------------------------------------------------------------------------------- *)
+(* containers *)
+
+Lemma eqb_sym_b : forall a b, Nat.eqb a b = Nat.eqb b a.
+Proof. intros. apply Nat.eqb_sym. Qed.
+
+Lemma mem_app : forall x l1 l2, mem x (l1 ++ l2) = mem x l1 || mem x l2.
+Proof. intros. unfold mem. apply existsb_app. Qed.
+
+Lemma mem_sadd : forall x y l, mem x (sadd y l) = Nat.eqb x y || mem x l.
+Proof.
+  intros x y l. unfold sadd. destruct (mem y l) eqn:E.
+  - destruct (Nat.eqb_spec x y); subst; cbn; [now rewrite E|reflexivity].
+  - rewrite mem_app. cbn. rewrite orb_false_r. apply orb_comm.
+Qed.
+
+Lemma mem_sdiscard : forall x y l, mem x (sdiscard y l) = negb (Nat.eqb x y) && mem x l.
+Proof.
+  intros x y l. unfold mem, sdiscard. induction l as [|a l IH]; cbn; [now rewrite andb_false_r|].
+  destruct (Nat.eqb_spec y a); cbn.
+  - subst. rewrite IH. destruct (Nat.eqb_spec x a); cbn; reflexivity.
+  - rewrite IH. destruct (Nat.eqb_spec x a); cbn; [|reflexivity].
+    subst. destruct (Nat.eqb_spec a y); [congruence|reflexivity].
+Qed.
+
+Lemma mem_cons : forall x a l, mem x (a :: l) = Nat.eqb x a || mem x l.
+Proof. reflexivity. Qed.
+
+Lemma mem_fold_sadd : forall x l acc, mem x (fold_left (fun a y => sadd y a) l acc) = mem x l || mem x acc.
+Proof.
+  intros x l. induction l as [|a l IH]; intros acc; cbn [fold_left]; [reflexivity|].
+  rewrite IH, mem_sadd, mem_cons. destruct (Nat.eqb x a), (mem x l), (mem x acc); reflexivity.
+Qed.
+
+Lemma mem_sof : forall x l, mem x (sof l) = mem x l.
+Proof. intros. unfold sof. rewrite mem_fold_sadd. cbn. apply orb_false_r. Qed.
+
+Lemma sadd_idem : forall x l, sadd x (sadd x l) = sadd x l.
+Proof. intros. unfold sadd at 1. rewrite mem_sadd, Nat.eqb_refl. reflexivity. Qed.
+
+Lemma aget_aset : forall A k k' (a : A) l, aget k (aset k' a l) = if Nat.eqb k k' then Some a else aget k l.
+Proof.
+  intros A k k' a l. induction l as [|[k0 a0] l IH]; cbn.
+  - destruct (Nat.eqb k k'); reflexivity.
+  - destruct (Nat.eqb_spec k' k0); cbn.
+    + subst. destruct (Nat.eqb k k0); reflexivity.
+    + rewrite IH. destruct (Nat.eqb_spec k k0); [|reflexivity].
+      subst. destruct (Nat.eqb_spec k0 k'); [congruence|reflexivity].
+Qed.
+
+Lemma aget_adel : forall A k k' (l : list (nat * A)), aget k (adel k' l) = if Nat.eqb k k' then None else aget k l.
+Proof.
+  intros A k k' l. unfold adel. induction l as [|[k0 a0] l IH]; cbn.
+  - destruct (Nat.eqb k k'); reflexivity.
+  - destruct (Nat.eqb_spec k' k0); cbn.
+    + subst. rewrite IH. destruct (Nat.eqb k k0); reflexivity.
+    + rewrite IH. destruct (Nat.eqb_spec k k0); [|reflexivity].
+      subst. destruct (Nat.eqb_spec k0 k'); [congruence|reflexivity].
+Qed.
+
+Lemma aget_filter_key : forall A (P : nat -> bool) k (l : list (nat * A)),
+  aget k (filter (fun p => P (fst p)) l) = if P k then aget k l else None.
+Proof.
+  intros A P k l. induction l as [|[k0 a0] l IH]; cbn; [destruct (P k); reflexivity|].
+  destruct (P k0) eqn:E0; cbn.
+  - rewrite IH. destruct (Nat.eqb_spec k k0); [subst; now rewrite E0|reflexivity].
+  - rewrite IH. destruct (Nat.eqb_spec k k0); [subst; now rewrite E0|reflexivity].
+Qed.
+
+Lemma aget_map_key : forall A B (g : nat -> A -> B) k (l : list (nat * A)),
+  aget k (map (fun p => (fst p, g (fst p) (snd p))) l) = option_map (g k) (aget k l).
+Proof.
+  intros A B g k l. induction l as [|[k0 a0] l IH]; cbn; [reflexivity|].
+  destruct (Nat.eqb_spec k k0); [subst; reflexivity|apply IH].
+Qed.
+
+Lemma aget_fold_aset : forall A k (l acc : list (nat * A)),
+  aget k (fold_left (fun a p => aset (fst p) (snd p) a) l acc) =
+  match last_of k l with Some x => Some x | None => aget k acc end.
+Proof.
+  intros A k l. induction l as [|[k0 a0] l IH]; intros acc; cbn; [reflexivity|].
+  rewrite IH. destruct (last_of k l); [reflexivity|]. rewrite aget_aset. destruct (Nat.eqb k k0); reflexivity.
+Qed.
+
+Lemma aget_aof : forall A k (l : list (nat * A)), aget k (aof l) = last_of k l.
+Proof. intros. unfold aof. rewrite aget_fold_aset. destruct (last_of k l); reflexivity. Qed.
+
+(* ---------------------------------------------------------------------------------------- *)
+(* rooms *)
+
+Lemma aget_upd_rooms : forall r r' p f rs,
+  aget r (upd_rooms r' p f rs) = if Nat.eqb r r' then Some (f (room_obj rs r' p)) else aget r rs.
+Proof. intros. unfold upd_rooms. apply aget_aset. Qed.
+
+Lemma rooms_upd_user : forall u f s, rooms (upd_user u f s) = rooms s.
+Proof. reflexivity. Qed.
+Lemma rooms_touch_user : forall u s, rooms (touch_user u s) = rooms s.
+Proof. reflexivity. Qed.
+Lemma rooms_upd_room : forall r p f s, rooms (upd_room r p f s) = upd_rooms r p f (rooms s).
+Proof. reflexivity. Qed.
+
+Lemma rooms_fold_touch : forall A (g : A -> name) l s, rooms (fold_left (fun s x => touch_user (g x) s) l s) = rooms s.
+Proof. intros A g l. induction l; intros s; cbn; [reflexivity|]. now rewrite IHl. Qed.
+
+Lemma aget_fold_upd : forall p f (Hf : forall x, f (f x) = f x) r l rs,
+  aget r (fold_left (fun rs r' => upd_rooms r' p f rs) l rs) =
+  if mem r l then Some (f (room_obj rs r p)) else aget r rs.
+Proof.
+  intros p f Hf r l. induction l as [|a l IH]; intros rs; cbn; [reflexivity|].
+  rewrite IH. unfold room_obj at 1. rewrite !aget_upd_rooms.
+  destruct (Nat.eqb_spec r a); cbn.
+  - subst. rewrite Hf. destruct (mem a l); reflexivity.
+  - reflexivity.
+Qed.
+
+(* ---------------------------------------------------------------------------------------- *)
+(* users *)
+
+Lemma user_obj_upd_user : forall u u' f s,
+  user_obj (upd_user u' f s) u = if Nat.eqb u u' then f (user_obj s u') else user_obj s u.
+Proof.
+  intros. unfold user_obj at 1, upd_user. cbn. rewrite aget_aset.
+  destruct (Nat.eqb u u'); reflexivity.
+Qed.
+
+Lemma user_obj_touch : forall u u' s, user_obj (touch_user u' s) u = user_obj s u.
+Proof.
+  intros. unfold touch_user. rewrite user_obj_upd_user.
+  destruct (Nat.eqb_spec u u'); [subst|]; reflexivity.
+Qed.
+
+Lemma user_obj_upd_room : forall u r p f s, user_obj (upd_room r p f s) u = user_obj s u.
+Proof. reflexivity. Qed.
+
+Lemma user_obj_fold_touch : forall A (g : A -> name) u l s,
+  user_obj (fold_left (fun s x => touch_user (g x) s) l s) u = user_obj s u.
+Proof. intros A g u l. induction l; intros s; cbn; [reflexivity|]. now rewrite IHl, user_obj_touch. Qed.
+
+(* ---------------------------------------------------------------------------------------- *)
+(* rooms: one notification *)
+
+Lemma room_obj_upd : forall r r' p q f rs,
+  room_obj (upd_rooms r' p f rs) r q = if Nat.eqb r r' then f (room_obj rs r' p) else room_obj rs r q.
+Proof. intros. unfold room_obj at 1. rewrite aget_upd_rooms. destruct (Nat.eqb r r'); reflexivity. Qed.
+
+Lemma ro_users : forall rs r, r_users (room_obj rs r true) = r_users (room_obj rs r false).
+Proof. intros. unfold room_obj. destruct (aget r rs); reflexivity. Qed.
+Lemma ro_joined : forall rs r, r_joined (room_obj rs r true) = r_joined (room_obj rs r false).
+Proof. intros. unfold room_obj. destruct (aget r rs); reflexivity. Qed.
+Lemma ro_tickers : forall rs r, r_tickers (room_obj rs r true) = r_tickers (room_obj rs r false).
+Proof. intros. unfold room_obj. destruct (aget r rs); reflexivity. Qed.
+Lemma ro_members : forall rs r, r_members (room_obj rs r true) = r_members (room_obj rs r false).
+Proof. intros. unfold room_obj. destruct (aget r rs); reflexivity. Qed.
+Lemma ro_owner : forall rs r, r_owner (room_obj rs r true) = r_owner (room_obj rs r false).
+Proof. intros. unfold room_obj. destruct (aget r rs); reflexivity. Qed.
+Lemma ro_ops : forall rs r, r_ops (room_obj rs r true) = r_ops (room_obj rs r false).
+Proof. intros. unfold room_obj. destruct (aget r rs); reflexivity. Qed.
+
+Ltac push_rooms :=
+  repeat (rewrite ?rooms_upd_room, ?rooms_upd_user, ?rooms_touch_user, ?rooms_fold_touch).
+
+Ltac proj := cbn [r_private r_users r_joined r_tickers r_members r_owner r_ops
+                  set_private set_users set_joined set_tickers set_members set_owner set_ops].
+
+Ltac eqbs :=
+  repeat match goal with
+  | |- context [Nat.eqb ?a ?b] => destruct (Nat.eqb_spec a b); subst
+  end.
+
+Ltac fin :=
+  rewrite ?Nat.eqb_refl; proj;
+  rewrite ?ro_users, ?ro_joined, ?ro_tickers, ?ro_members, ?ro_owner, ?ro_ops;
+  rewrite ?mem_sadd, ?mem_sdiscard, ?mem_sof, ?aget_aset, ?aget_adel, ?aget_aof;
+  eqbs; cbn [andb orb negb]; try reflexivity; try congruence.
+
+
+Definition rl_base (me : name) (pub owned priv operated : list room) (rs : list (room * rrec)) (r : room) : option rrec :=
+  let a1 := if mem r pub then Some (room_obj rs r false) else aget r rs in
+  let o1 p := match a1 with Some x => x | None => new_room p end in
+  let a2 := if mem r owned then Some (set_owner (Some me) (o1 true)) else a1 in
+  let o2 p := match a2 with Some x => x | None => new_room p end in
+  let a3 := if mem r priv then Some (set_members (sadd me (r_members (o2 true))) (o2 true)) else a2 in
+  let o3 p := match a3 with Some x => x | None => new_room p end in
+  if mem r operated then Some (set_ops (sadd me (r_ops (o3 true))) (o3 true)) else a3.
+
+Lemma room_obj_fold_upd : forall p f (Hf : forall x, f (f x) = f x) r q l rs,
+  room_obj (fold_left (fun rs r' => upd_rooms r' p f rs) l rs) r q =
+  if mem r l then f (room_obj rs r p) else room_obj rs r q.
+Proof. intros. unfold room_obj at 1. rewrite aget_fold_upd by assumption. destruct (mem r l); reflexivity. Qed.
+
+Lemma aget_room_list : forall me pub owned priv operated s r,
+  aget r (rooms (on_room_list me pub owned priv operated s)) =
+  if mem r pub || mem r priv || mem r owned
+  then option_map (fix_room me pub owned priv operated r) (rl_base me pub owned priv operated (rooms s) r)
+  else None.
+Proof.
+  intros. unfold on_room_list. cbn [rooms].
+  rewrite (aget_map_key _ _ (fix_room me pub owned priv operated)).
+  rewrite (aget_filter_key _ (fun r => mem r pub || mem r priv || mem r owned)).
+  destruct (mem r pub || mem r priv || mem r owned); [|reflexivity]. f_equal.
+  unfold rl_base.
+  repeat first [ rewrite aget_fold_upd by (intros; cbn; now rewrite ?sadd_idem)
+               | rewrite room_obj_fold_upd by (intros; cbn; now rewrite ?sadd_idem) ].
+  unfold room_obj, touch_user, upd_user; cbn [rooms].
+  destruct (mem r operated), (mem r priv), (mem r owned), (mem r pub), (aget r (rooms s)); reflexivity.
+Qed.
+
+Lemma rooms_fold_join : forall r (us : list (name * (Z * stats))) s,
+  rooms (fold_left (fun s p =>
+           let s' := upd_user (fst p) (set_status_stats (fst (snd p)) (snd (snd p))) s in
+           upd_room r false (fun x => set_users (sadd (fst p) (r_users x)) x) s') us s) =
+  fold_left (fun rs p => upd_rooms r false (fun x => set_users (sadd (fst p) (r_users x)) x) rs) us (rooms s).
+Proof. intros r us. induction us as [|p us IH]; intros s; cbn [fold_left]; [reflexivity|]. rewrite IH. reflexivity. Qed.
+
+Lemma aget_fold_join : forall r (us : list (name * (Z * stats))) rs x0 r',
+  aget r rs = Some x0 ->
+  aget r' (fold_left (fun rs p => upd_rooms r false (fun x => set_users (sadd (fst p) (r_users x)) x) rs) us rs) =
+  if Nat.eqb r' r then Some (set_users (fold_left (fun a y => sadd y a) (map fst us) (r_users x0)) x0) else aget r' rs.
+Proof.
+  intros r us. induction us as [|p us IH]; intros rs x0 r' H; cbn [fold_left map].
+  - destruct (Nat.eqb_spec r' r); [subst; rewrite H; destruct x0; reflexivity|reflexivity].
+  - erewrite IH.
+    2:{ rewrite aget_upd_rooms, Nat.eqb_refl. unfold room_obj. rewrite H. reflexivity. }
+    rewrite aget_upd_rooms. destruct (Nat.eqb r' r); reflexivity.
+Qed.
+
+Definition join_final (r : room) (us : list (name * (Z * stats))) (owner : option name) (ops : list name) (x : rrec) : rrec :=
+  let x1 := set_private (match owner with Some _ => true | None => false end) (set_joined true x) in
+  set_ops (sof ops) (set_owner owner (set_users (fold_left (fun a y => sadd y a) (map fst us) (r_users x1)) x1)).
+
+Lemma aget_join_room : forall r us owner ops s r',
+  aget r' (rooms (on_join_room r us owner ops s)) =
+  if Nat.eqb r' r then Some (join_final r us owner ops (room_obj (rooms s) r false)) else aget r' (rooms s).
+Proof.
+  intros. unfold on_join_room. rewrite rooms_upd_room, aget_upd_rooms.
+  rewrite rooms_fold_join, rooms_upd_room.
+  set (x1 := set_private (match owner with Some _ => true | None => false end) (set_joined true (room_obj (rooms s) r false))).
+  assert (H : aget r (upd_rooms r false (fun x => set_private (match owner with Some _ => true | None => false end) (set_joined true x)) (rooms s)) = Some x1).
+  { rewrite aget_upd_rooms, Nat.eqb_refl. reflexivity. }
+  destruct (Nat.eqb_spec r' r).
+  - subst r'. unfold room_obj. rewrite (aget_fold_join _ _ _ _ _ H), Nat.eqb_refl. reflexivity.
+  - rewrite (aget_fold_join _ _ _ _ _ H). destruct (Nat.eqb_spec r' r); [congruence|].
+    rewrite aget_upd_rooms. destruct (Nat.eqb_spec r' r); [congruence|reflexivity].
+Qed.
+
+(* ---------------------------------------------------------------------------------------- *)
+(* step lemmas: one question, one notification *)
+
+(* ---------------------------------------------------------------------------------------- *)
+(* users: one notification *)
+
+Lemma user_obj_room_list : forall me pub owned priv operated s u,
+  user_obj (on_room_list me pub owned priv operated s) u = user_obj s u.
+Proof. intros. unfold on_room_list. change (user_obj (touch_user me s) u = user_obj s u). apply user_obj_touch. Qed.
+
+Lemma user_obj_fold_join : forall r (us : list (name * (Z * stats))) s u,
+  user_obj (fold_left (fun s p =>
+             let s' := upd_user (fst p) (set_status_stats (fst (snd p)) (snd (snd p))) s in
+             upd_room r false (fun x => set_users (sadd (fst p) (r_users x)) x) s') us s) u =
+  match last_of u us with
+  | Some (st, ss) => mkU st (Some ss) (u_priv (user_obj s u))
+  | None => user_obj s u
+  end.
+Proof.
+  intros r us. induction us as [|[u0 [st0 ss0]] us IH]; intros s u; cbn [fold_left last_of]; [reflexivity|].
+  rewrite IH. cbn [fst snd]. rewrite user_obj_upd_room, user_obj_upd_user.
+  destruct (last_of u us) as [[st ss]|]; destruct (Nat.eqb_spec u u0); subst; reflexivity.
+Qed.
+
+Lemma user_obj_join_room : forall r us owner ops s u,
+  user_obj (on_join_room r us owner ops s) u =
+  match last_of u us with
+  | Some (st, ss) => mkU st (Some ss) (u_priv (user_obj s u))
+  | None => user_obj s u
+  end.
+Proof. intros. unfold on_join_room. rewrite user_obj_upd_room, user_obj_fold_join, user_obj_upd_room. reflexivity. Qed.
+
+Lemma user_obj_priv_users : forall s l u,
+  user_obj (mkS (rooms s) (map (fun p => (fst p, mkU (u_status (snd p)) (u_stats (snd p)) (mem (fst p) l))) (users s)) (sof l)) u =
+  mkU (u_status (user_obj s u)) (u_stats (user_obj s u)) (mem u l).
+Proof.
+  intros. unfold user_obj. cbn [users privset].
+  rewrite (aget_map_key _ _ (fun k x => mkU (u_status x) (u_stats x) (mem k l))).
+  destruct (aget u (users s)); cbn; [reflexivity|]. unfold new_user. cbn. now rewrite mem_sof.
+Qed.
+
+Local Arguments mem : simpl never.
+Local Arguments sadd : simpl never.
+Local Arguments sdiscard : simpl never.
+Local Arguments sof : simpl never.
+Local Arguments aget : simpl never.
+Local Arguments aset : simpl never.
+Local Arguments adel : simpl never.
+Local Arguments aof : simpl never.
+
+Ltac split_blocked :=
+  try match goal with |- context [blocked_room ?b ?x] => destruct (blocked_room b x) eqn:?Hb end;
+  try match goal with |- context [blocked_private ?b ?x] => destruct (blocked_private b x) eqn:?Hb end.
+
+(* room questions of the form Q (room_obj (rooms s) r false) *)
+Ltac room_step m :=
+  destruct m as [pub owned priv operated | | | | | | | | | | | | | | | | | | | | | | | | | ];
+  [ (* RoomList *)
+    cbn [apply_msg fst]; unfold room_obj; rewrite aget_room_list; unfold rl_base, listed, fix_room, room_obj; change isin with mem;
+    match goal with |- context [aget ?r (rooms ?s)] =>
+      destruct (mem r pub), (mem r owned), (mem r priv), (mem r operated);
+      destruct (aget r (rooms s)) as [[p0 us0 j0 tk0 mb0 [o0|] op0]|] end;
+    cbn; eqbs; cbn; fin
+  | (* JoinRoom *)
+    cbn [apply_msg fst]; unfold room_obj; rewrite aget_join_room;
+    match goal with |- context [Nat.eqb ?r ?r0] => destruct (Nat.eqb_spec r r0); [subst|] end;
+    unfold join_final, room_obj; change isin with mem; proj; rewrite ?mem_fold_sadd, ?mem_sof; cbn [andb];
+    try match goal with |- context [mem ?u (map fst ?l)] => destruct (mem u (map fst l)) end; fin
+  | .. ];
+  cbn [apply_msg fst]; split_blocked; cbn [fst]; push_rooms; rewrite ?room_obj_upd; try reflexivity;
+  try (match goal with |- context [Nat.eqb ?r ?r0] => destruct (Nat.eqb_spec r r0); [subst r0|] end; cbn [andb]; try reflexivity);
+  change isin with mem; fin.
+
+Section Steps.
+  Variable me : name.
+  Variable bl : blockmap.
+
+  Lemma joined_step_ok : forall s m r,
+    q_joined (fst (apply_msg me bl s m)) r = joined_step r (q_joined s r) m.
+  Proof. intros s m r. unfold q_joined, q_room, joined_step. room_step m. Qed.
+
+  Lemma inroom_step_ok : forall s m r u,
+    q_inroom (fst (apply_msg me bl s m)) r u = inroom_step r u (q_inroom s r u) m.
+  Proof. intros s m r u. unfold q_inroom, q_room, inroom_step. room_step m. Qed.
+
+  Lemma owner_step_ok : forall s m r,
+    q_owner (fst (apply_msg me bl s m)) r = owner_step me r (q_owner s r) m.
+  Proof. intros s m r. unfold q_owner, q_room, owner_step. room_step m. Qed.
+
+  Lemma member_step_ok : forall s m r u,
+    q_member (fst (apply_msg me bl s m)) r u = member_step me r u (q_member s r u) m.
+  Proof. intros s m r u. unfold q_member, q_room, member_step. room_step m. Qed.
+
+  Lemma ticker_step_ok : forall s m r u,
+    q_ticker (fst (apply_msg me bl s m)) r u = ticker_step r u (q_ticker s r u) m.
+  Proof. intros s m r u. unfold q_ticker, q_room, ticker_step. room_step m. Qed.
+
+  Lemma private_step_ok : forall s m r,
+    q_private (fst (apply_msg me bl s m)) r = private_step bl r (q_private s r) m.
+  Proof.
+    intros s m r. unfold q_private, private_step.
+    destruct m as [pub owned priv operated | | | | | | | | | | | | | | | | | | | | | | | | | ];
+    [ cbn [apply_msg fst suppressed]; rewrite aget_room_list; unfold rl_base, listed, fix_room, room_obj; change isin with mem;
+      destruct (mem r pub), (mem r owned), (mem r priv), (mem r operated);
+      destruct (aget r (rooms s)) as [[p0 us0 j0 tk0 mb0 [o0|] op0]|]; cbn; eqbs; cbn; fin
+    | cbn [apply_msg fst suppressed]; rewrite aget_join_room;
+      match goal with |- context [Nat.eqb ?r ?r0] => destruct (Nat.eqb_spec r r0); [subst|] end;
+      unfold join_final; cbn; destruct owner; reflexivity
+    | .. ];
+    cbn [apply_msg fst suppressed about]; split_blocked; cbn [fst]; push_rooms; rewrite ?aget_upd_rooms; try reflexivity;
+    try (match goal with |- context [Nat.eqb ?r ?r0] => destruct (Nat.eqb_spec r r0); [subst r0|] end; try reflexivity);
+    repeat (unfold room_obj; rewrite ?aget_upd_rooms, ?Nat.eqb_refl);
+    destruct (aget r (rooms s)) as [[p0 us0 j0 tk0 mb0 o0 op0]|]; reflexivity.
+  Qed.
+
+  Definition own_grant (r : room) (u : name) (m : msg) : bool :=
+    match m with OpGrantedM r' => Nat.eqb r r' && Nat.eqb u me | _ => false end.
+
+  (* the operator question: every notification except the own operator grant (finding F24) *)
+  Lemma operator_step_ok : forall s m r u, own_grant r u m = false ->
+    q_operator (fst (apply_msg me bl s m)) r u = operator_step me r u (q_operator s r u) m.
+  Proof.
+    intros s m r u H. unfold q_operator, q_room, operator_step. room_step m.
+    cbn in H. rewrite !Nat.eqb_refl in H. discriminate.
+  Qed.
+
+  Ltac user_step m :=
+    destruct m;
+    [ cbn [apply_msg fst]; rewrite user_obj_room_list; reflexivity
+    | cbn [apply_msg fst]; rewrite user_obj_join_room;
+      match goal with |- context [last_of ?u ?l] => destruct (last_of u l) as [[? ?]|] end; reflexivity
+    | .. ];
+    cbn [apply_msg fst]; split_blocked; cbn [fst];
+    repeat (rewrite ?user_obj_fold_touch, ?(user_obj_fold_touch _ (@fst name text)), ?user_obj_priv_users,
+                    ?user_obj_upd_room, ?user_obj_touch, ?user_obj_upd_user); try reflexivity;
+    change isin with mem;
+    repeat match goal with
+    | |- context [Nat.eqb ?a ?b] => destruct (Nat.eqb_spec a b); subst
+    | |- context [if ?b then _ else _] => is_var b; destruct b
+    | |- context [match ?o with Some _ => _ | None => _ end] => is_var o; destruct o
+    end; try reflexivity.
+
+  Lemma status_step_ok : forall s m u, q_status (fst (apply_msg me bl s m)) u = status_step u (q_status s u) m.
+  Proof. intros s m u. unfold q_status, status_step. user_step m. Qed.
+
+  Lemma stats_step_ok : forall s m u, q_stats (fst (apply_msg me bl s m)) u = stats_step u (q_stats s u) m.
+  Proof. intros s m u. unfold q_stats, stats_step. user_step m. Qed.
+
+  Lemma privileged_step_ok : forall s m u, q_privileged (fst (apply_msg me bl s m)) u = privileged_step u (q_privileged s u) m.
+  Proof. intros s m u. unfold q_privileged, privileged_step. user_step m. Qed.
+End Steps.
+
+(* ---------------------------------------------------------------------------------------- *)
+(* all notification lists *)
+
+Lemma fold_replay : forall A me bl (q : state -> A) (step : A -> msg -> A),
+  (forall s m, q (fst (apply_msg me bl s m)) = step (q s) m) ->
+  forall ms s, q (fold me bl s ms) = replay step (q s) ms.
+Proof.
+  intros A me bl q step H ms. unfold fold, replay.
+  induction ms as [|m ms IH]; intros s; cbn [fold_left]; [reflexivity|]. rewrite IH, H. reflexivity.
+Qed.
+
+Lemma fold_replay_if : forall A me bl (q : state -> A) (step : A -> msg -> A) (ok : msg -> bool),
+  (forall s m, ok m = true -> q (fst (apply_msg me bl s m)) = step (q s) m) ->
+  forall ms s, forallb ok ms = true -> q (fold me bl s ms) = replay step (q s) ms.
+Proof.
+  intros A me bl q step ok H ms. unfold fold, replay.
+  induction ms as [|m ms IH]; intros s Hok; cbn [fold_left]; [reflexivity|].
+  cbn in Hok. apply andb_prop in Hok. destruct Hok as [H1 H2]. rewrite IH by exact H2. rewrite H by exact H1. reflexivity.
+Qed.
+
+(* Everything the property lists, except the operator set *)
+Definition agrees_but_operators (me : name) (bl : blockmap) (s0 : state) (ms : list msg) (r : room) (u : name) : Prop :=
+  let s := fold me bl s0 ms in
+  q_private s r = replay (private_step bl r) (q_private s0 r) ms /\
+  q_joined s r = replay (joined_step r) (q_joined s0 r) ms /\
+  q_inroom s r u = replay (inroom_step r u) (q_inroom s0 r u) ms /\
+  q_owner s r = replay (owner_step me r) (q_owner s0 r) ms /\
+  q_member s r u = replay (member_step me r u) (q_member s0 r u) ms /\
+  q_ticker s r u = replay (ticker_step r u) (q_ticker s0 r u) ms /\
+  q_status s u = replay (status_step u) (q_status s0 u) ms /\
+  q_stats s u = replay (stats_step u) (q_stats s0 u) ms /\
+  q_privileged s u = replay (privileged_step u) (q_privileged s0 u) ms.
+
+Definition operators_agree (me : name) (bl : blockmap) (s0 : state) (ms : list msg) (r : room) (u : name) : Prop :=
+  q_operator (fold me bl s0 ms) r u = replay (operator_step me r u) (q_operator s0 r u) ms.
+
+Lemma fold_but_operators : forall me bl s0 ms r u, agrees_but_operators me bl s0 ms r u.
+Proof.
+  intros. unfold agrees_but_operators. cbv zeta.
+  repeat split.
+  - apply (fold_replay _ me bl (fun s => q_private s r)). intros; apply private_step_ok.
+  - apply (fold_replay _ me bl (fun s => q_joined s r)). intros; apply joined_step_ok.
+  - apply (fold_replay _ me bl (fun s => q_inroom s r u)). intros; apply inroom_step_ok.
+  - apply (fold_replay _ me bl (fun s => q_owner s r)). intros; apply owner_step_ok.
+  - apply (fold_replay _ me bl (fun s => q_member s r u)). intros; apply member_step_ok.
+  - apply (fold_replay _ me bl (fun s => q_ticker s r u)). intros; apply ticker_step_ok.
+  - apply (fold_replay _ me bl (fun s => q_status s u)). intros; apply status_step_ok.
+  - apply (fold_replay _ me bl (fun s => q_stats s u)). intros; apply stats_step_ok.
+  - apply (fold_replay _ me bl (fun s => q_privileged s u)). intros; apply privileged_step_ok.
+Qed.
+
+(* operators: every list in which the own operator grant for (r, me) does not occur *)
+Lemma fold_operators_partial : forall me bl s0 ms r u,
+  forallb (fun m => negb (own_grant me r u m)) ms = true -> operators_agree me bl s0 ms r u.
+Proof.
+  intros me bl s0 ms r u H. unfold operators_agree.
+  apply (fold_replay_if _ me bl (fun s => q_operator s r u) (operator_step me r u) (fun m => negb (own_grant me r u m))); [|exact H].
+  intros s m Hm. apply operator_step_ok. now apply negb_true_iff in Hm.
+Qed.
+
+Lemma fold_operators_refuted : exists me bl s0 ms r u, ~ operators_agree me bl s0 ms r u.
+Proof.
+  exists 0, [], (init_state 0), [OperatorsM 0 [0; 1]; OpGrantedM 0], 0, 0.
+  unfold operators_agree. vm_compute. discriminate.
+Qed.
+
+(* what the handlers report *)
+Lemma events_ok : forall me bl s m, snd (apply_msg me bl s m) = reported bl m.
+Proof.
+  intros me bl s m. unfold reported. destruct m; cbn [apply_msg suppressed announced snd];
+  try match goal with |- context [blocked_room ?b ?x] => destruct (blocked_room b x) end;
+  try match goal with |- context [blocked_private ?b ?x] => destruct (blocked_private b x) end; reflexivity.
+Qed.
+
+Lemma blocked_silent : forall me bl s m, suppressed bl m = true -> apply_msg me bl s m = (s, []).
+Proof.
+  intros me bl s m H. destruct m; cbn in H; try discriminate; cbn [apply_msg]; rewrite H; reflexivity.
+Qed.
+
+(* ---------------------------------------------------------------------------------------- *)
+(* the repaired own-operator-grant handler: the full statement *)
+
+Section Repaired.
+  Variable me : name.
+  Variable bl : blockmap.
+
+  Ltac same_q :=
+    intros; match goal with m : msg |- _ => destruct m end; try reflexivity;
+    cbn [apply_msg apply_msg_repaired fst]; push_rooms; rewrite ?room_obj_upd;
+    repeat (rewrite ?user_obj_upd_room, ?user_obj_touch);
+    try reflexivity;
+    try (match goal with |- context [Nat.eqb ?r ?r0] => destruct (Nat.eqb_spec r r0); [subst r0|] end; try reflexivity); fin.
+
+  Lemma rep_private : forall s m r, q_private (fst (apply_msg_repaired me bl s m)) r = q_private (fst (apply_msg me bl s m)) r.
+  Proof.
+    intros s m r; destruct m; try reflexivity. unfold q_private. cbn [apply_msg apply_msg_repaired fst]. push_rooms.
+    rewrite !aget_upd_rooms. destruct (Nat.eqb r r0); reflexivity.
+  Qed.
+  Lemma rep_joined : forall s m r, q_joined (fst (apply_msg_repaired me bl s m)) r = q_joined (fst (apply_msg me bl s m)) r.
+  Proof. unfold q_joined, q_room. same_q. Qed.
+  Lemma rep_inroom : forall s m r u, q_inroom (fst (apply_msg_repaired me bl s m)) r u = q_inroom (fst (apply_msg me bl s m)) r u.
+  Proof. unfold q_inroom, q_room. same_q. Qed.
+  Lemma rep_owner : forall s m r, q_owner (fst (apply_msg_repaired me bl s m)) r = q_owner (fst (apply_msg me bl s m)) r.
+  Proof. unfold q_owner, q_room. same_q. Qed.
+  Lemma rep_member : forall s m r u, q_member (fst (apply_msg_repaired me bl s m)) r u = q_member (fst (apply_msg me bl s m)) r u.
+  Proof. unfold q_member, q_room. same_q. Qed.
+  Lemma rep_ticker : forall s m r u, q_ticker (fst (apply_msg_repaired me bl s m)) r u = q_ticker (fst (apply_msg me bl s m)) r u.
+  Proof. unfold q_ticker, q_room. same_q. Qed.
+  Lemma rep_status : forall s m u, q_status (fst (apply_msg_repaired me bl s m)) u = q_status (fst (apply_msg me bl s m)) u.
+  Proof. unfold q_status. same_q. Qed.
+  Lemma rep_stats : forall s m u, q_stats (fst (apply_msg_repaired me bl s m)) u = q_stats (fst (apply_msg me bl s m)) u.
+  Proof. unfold q_stats. same_q. Qed.
+  Lemma rep_privileged : forall s m u, q_privileged (fst (apply_msg_repaired me bl s m)) u = q_privileged (fst (apply_msg me bl s m)) u.
+  Proof. unfold q_privileged. same_q. Qed.
+
+  Lemma rep_operator : forall s m r u,
+    q_operator (fst (apply_msg_repaired me bl s m)) r u = operator_step me r u (q_operator s r u) m.
+  Proof.
+    intros s m r u. destruct m; try (apply operator_step_ok; reflexivity).
+    unfold q_operator, q_room, operator_step. cbn [apply_msg_repaired fst]. push_rooms. rewrite ?room_obj_upd.
+    destruct (Nat.eqb_spec r r0); [subst r0|]; cbn [andb]; try reflexivity. fin.
+  Qed.
+
+  Lemma fold_repaired_replay : forall A (q : state -> A) (step : A -> msg -> A),
+    (forall s m, q (fst (apply_msg_repaired me bl s m)) = step (q s) m) ->
+    forall ms s, q (fold_repaired me bl s ms) = replay step (q s) ms.
+  Proof.
+    intros A q step H ms. unfold fold_repaired, replay.
+    induction ms as [|m ms IH]; intros s; cbn [fold_left]; [reflexivity|]. rewrite IH, H. reflexivity.
+  Qed.
+
+  Lemma fold_if_repaired : forall s0 ms r u,
+    let s := fold_repaired me bl s0 ms in
+    q_private s r = replay (private_step bl r) (q_private s0 r) ms /\
+    q_joined s r = replay (joined_step r) (q_joined s0 r) ms /\
+    q_inroom s r u = replay (inroom_step r u) (q_inroom s0 r u) ms /\
+    q_owner s r = replay (owner_step me r) (q_owner s0 r) ms /\
+    q_member s r u = replay (member_step me r u) (q_member s0 r u) ms /\
+    q_operator s r u = replay (operator_step me r u) (q_operator s0 r u) ms /\
+    q_ticker s r u = replay (ticker_step r u) (q_ticker s0 r u) ms /\
+    q_status s u = replay (status_step u) (q_status s0 u) ms /\
+    q_stats s u = replay (stats_step u) (q_stats s0 u) ms /\
+    q_privileged s u = replay (privileged_step u) (q_privileged s0 u) ms.
+  Proof.
+    intros. subst s. repeat split.
+    - apply (fold_repaired_replay _ (fun s => q_private s r)). intros. rewrite rep_private. apply private_step_ok.
+    - apply (fold_repaired_replay _ (fun s => q_joined s r)). intros. rewrite rep_joined. apply joined_step_ok.
+    - apply (fold_repaired_replay _ (fun s => q_inroom s r u)). intros. rewrite rep_inroom. apply inroom_step_ok.
+    - apply (fold_repaired_replay _ (fun s => q_owner s r)). intros. rewrite rep_owner. apply owner_step_ok.
+    - apply (fold_repaired_replay _ (fun s => q_member s r u)). intros. rewrite rep_member. apply member_step_ok.
+    - apply (fold_repaired_replay _ (fun s => q_operator s r u)). intros. apply rep_operator.
+    - apply (fold_repaired_replay _ (fun s => q_ticker s r u)). intros. rewrite rep_ticker. apply ticker_step_ok.
+    - apply (fold_repaired_replay _ (fun s => q_status s u)). intros. rewrite rep_status. apply status_step_ok.
+    - apply (fold_repaired_replay _ (fun s => q_stats s u)). intros. rewrite rep_stats. apply stats_step_ok.
+    - apply (fold_repaired_replay _ (fun s => q_privileged s u)). intros. rewrite rep_privileged. apply privileged_step_ok.
+  Qed.
+End Repaired.
